@@ -158,7 +158,11 @@ inline Parsed tokenize(const std::string &f) {
 		}
 		if(at(i) == 'l') { i++; if(at(i) == 'l') { d.len = "ll"; i++; } else d.len = "l"; }
 		else if(at(i) == 'h') { i++; if(at(i) == 'h') { d.len = "hh"; i++; } else d.len = "h"; }
+#ifdef FRG_DONT_USE_LONG_DOUBLE
+		else if(at(i) == 'z' || at(i) == 't' || at(i) == 'j') { d.len = std::string(1, at(i)); i++; } // (in this configuration of printf.hpp 'L' is no length modifier but an unknown conversion character)
+#else
 		else if(at(i) == 'z' || at(i) == 't' || at(i) == 'j' || at(i) == 'L') { d.len = std::string(1, at(i)); i++; }
+#endif
 		// slots in consumption order: width, precision, value. A '*' that was parsed consumes its argument even when the
 		// directive turns out to be truncated afterwards (the conversion character is what is missing, not the '*').
 		auto add = [&](SlotClass c) { if(d.positional) posl.push_back({d.pos, c}); else seq.push_back(c); };
